@@ -554,6 +554,7 @@ fn cmd_markdown() -> (u64, Vec<String>) {
         ("multi-byte info string with config", "```日{a: 1}\nx\n```\n\n```scrut\n$ echo a\na\n```\n".to_string(), 1),
         ("line starting with two backticks", "``inline`` code at line start\n\n```scrut\n$ echo a\na\n```\n".to_string(), 1),
         ("unterminated front-matter (known finding C06.iter.none-consumes-nothing)", "---\nfoo\n\n```scrut\n$ echo a\na\n```\n".to_string(), 1),
+        ("unterminated fence after a complete block (known finding C06.parse.every-line)", "```scrut\n$ echo a\na\n```\n\n```scrut\n$ echo b\n".to_string(), 2),
         ("plain", "# t\n\n```scrut\n$ echo a\na\n```\n".to_string(), 1),
     ];
     let mut n = 0;
